@@ -94,7 +94,8 @@ Definition ld_remove (s : ld) (k : K) : result ld :=
         | None => Err KeyErr
         | Some w =>
           let wt1 := fupd (wt s) k None in
-          let tot := total s - w in
+          (* self._total_weight -= weight; if not self.items: self._total_weight = 0 *)
+          let tot := match its1 with [] => 0 | _ => total s - w end in
           if Qeqb w (maxw s) then
             let mc := (maxc s - 1)%Z in
             if Z.eqb mc 0 && negb (Nat.eqb (length its1) 0) then
